@@ -300,6 +300,8 @@ def chk (pred : String) (m : List (String × String)) : Option Bool :=
     let res ← get m "res"
     pure (Spec.C07.gateOK (← get m "kind") (res == "ok") ((← get m "paused") == "1") (listOf (← get m "bl") ",")
       (listOf (← get m "peggy") ",") (← get m "recv") (← get m "symbol"))
+  | "blset" => do
+    pure (Spec.C07.blSetOK (listOf (← get m "req") ",") (listOf (← get m "bl") ","))
   | "fx" => do
     let kind ← get m "kind"
     let res ← get m "res"
